@@ -3,6 +3,7 @@ import SaphyrModel.Sc.State
 import SaphyrModel.Proofs.SpansRun
 import SaphyrModel.Props.C17
 import SaphyrModel.Proofs.Counting
+import SaphyrModel.Proofs.BlockFold
 /-! # C12 — Reported positions are true positions
 
 **Parser half, proved for every token list** (`event_spans_are_token_spans` and its corollaries): the
@@ -142,29 +143,21 @@ theorem hdr_nobreak (hd : C05T.Hdr) : ∀ c ∈ hd.txt, isBreak c = false := by
   cases hd <;> simp [C05T.Hdr.txt] <;> decide
 
 open SaphyrModel.C14L SaphyrModel.C05 SaphyrModel.C05T SaphyrModel.C12C in
-/-- **The marks of a literal block scalar token are true positions — for every such scalar.** Let the whole
-    input be `pre` (what the scanner has consumed, ending with the `|`) followed by what remains: a literal block
-    scalar as in `C05.literal_block_scalar_token` (header ``/`-`/`+`, any list of content lines, any spelling of
-    every break) and a continuation. If the scanner's own mark is the true position of the end of `pre` — its
-    index is the number of characters consumed, its line and column are what counting line breaks and characters
-    over `pre` gives — then the start mark and the end mark of the token the scanner returns, and the scanner's
-    mark afterwards, are true positions too: each index lies within the input, and line and column are exactly
-    those obtained by counting (`Spec.lineCol`) up to that index. -/
-theorem literal_block_token_marks_true (pre : Str) (hpre : ∀ p, pre ≠ p ++ ['\r'])
-    (sm : Marker) (hd : Hdr) (b0 : Brk) (ind : Nat) (hind : ind ≠ 0) (tail : Str)
-    (ht1 : tail.headD '\x00' ≠ ' ') (ht2 : isBreak (tail.headD '\x00') = false) (ls : List (Str × Brk)) (l : Str) (b : Brk)
-    (hl : GoodLine l) (hl1 : l.headD '\x00' ≠ ' ') (hls : ∀ p ∈ ls, GoodLine p.1) (u : Sc)
-    (hI : (u.indent + 1).toNat ≤ ind) (hk : u.inp.kind = .str)
+/-- the counting argument shared by the literal and the folded style: from what the token-level theorems say
+    about line, column and index of the marks to `Spec.markTrue` -/
+theorem block_marks_true_core (lit : Bool) (text : Str) (pre : Str) (hpre : ∀ p, pre ≠ p ++ ['\r'])
+    (hd : Hdr) (b0 : Brk) (ind : Nat) (hind : ind ≠ 0) (tail : Str)
+    (ls : List (Str × Brk)) (l : Str) (b : Brk)
+    (hl : GoodLine l) (hls : ∀ p ∈ ls, GoodLine p.1) (u : Sc)
     (hi : u.inp.iter = hd.txt ++ (b0.txt ++ (List.replicate ind ' ' ++ (l ++ (b.txt ++ restLinesB ind ls tail)))))
-    (hidx : u.mark.index = pre.length) (hlc : advanceLC pre (1, 0) = (u.mark.line, u.mark.col))
-    (tok : Token) (u' : Sc) (h : scanBlockScalarBody true sm u = .ok (tok, u')) :
+    (hlc : advanceLC pre (1, 0) = (u.mark.line, u.mark.col))
+    (tok : Token) (u' : Sc)
+    (hres : IsTok lit tok text (u.mark.line + 1) ind (u.mark.line + 1 + ls.length + 1)
+        (l ++ (b.txt ++ restLinesB ind ls tail)).length tail.length (pre.length + u.inp.iter.length) ∧
+      Pos u' tail (u.mark.line + 1 + ls.length + 1) 0 (pre.length + u.inp.iter.length)) :
     markTrue (pre ++ u.inp.iter) tok.span.start = true ∧ markTrue (pre ++ u.inp.iter) tok.span.stop = true ∧
     markTrue (pre ++ u.inp.iter) u'.mark = true := by
-  rcases literal_block_token sm hd b0 ind hind tail ht1 ht2 ls l b hl hl1 hls u u.mark.line u.mark.col u.indent
-      (pre.length + u.inp.iter.length) hI ⟨hk, hi, rfl, rfl, rfl, by rw [hidx, hi]⟩ with
-    ⟨p, hp⟩ | ⟨tok', w, e, ⟨_, x2, x3, x4, x5, x6, x7⟩, _, _, y3, y4, y5⟩
-  · rw [hp] at h; cases h
-  rw [e] at h; cases h
+  obtain ⟨⟨_, x2, x3, x4, x5, x6, x7⟩, _, _, y3, y4, y5⟩ := hres
   obtain ⟨n, rfl⟩ : ∃ n, ind = n + 1 := ⟨ind - 1, by omega⟩
   have hN : (pre ++ u.inp.iter).length = pre.length + u.inp.iter.length := List.length_append
   -- the text in front of the first content character, and in front of the continuation
@@ -213,6 +206,51 @@ theorem literal_block_token_marks_true (pre : Str) (hpre : ∀ p, pre ≠ p ++ [
     simp
     omega
   exact ⟨hstart, hstop _ x7 x4 x5, hstop _ y5 y3 y4⟩
+
+open SaphyrModel.C14L SaphyrModel.C05 SaphyrModel.C05T SaphyrModel.C12C in
+/-- **The marks of a literal block scalar token are true positions — for every such scalar.** Let the whole
+    input be `pre` (what the scanner has consumed, ending with the `|`) followed by what remains: a literal block
+    scalar as in `C05.literal_block_scalar_token` (header ``/`-`/`+`, any list of content lines, any spelling of
+    every break) and a continuation. If the scanner's own mark is the true position of the end of `pre` — its
+    index is the number of characters consumed, its line and column are what counting line breaks and characters
+    over `pre` gives — then the start mark and the end mark of the token the scanner returns, and the scanner's
+    mark afterwards, are true positions too: each index lies within the input, and line and column are exactly
+    those obtained by counting (`Spec.lineCol`) up to that index. -/
+theorem literal_block_token_marks_true (pre : Str) (hpre : ∀ p, pre ≠ p ++ ['\r'])
+    (sm : Marker) (hd : Hdr) (b0 : Brk) (ind : Nat) (hind : ind ≠ 0) (tail : Str)
+    (ht1 : tail.headD '\x00' ≠ ' ') (ht2 : isBreak (tail.headD '\x00') = false) (ls : List (Str × Brk)) (l : Str) (b : Brk)
+    (hl : GoodLine l) (hl1 : l.headD '\x00' ≠ ' ') (hls : ∀ p ∈ ls, GoodLine p.1) (u : Sc)
+    (hI : (u.indent + 1).toNat ≤ ind) (hk : u.inp.kind = .str)
+    (hi : u.inp.iter = hd.txt ++ (b0.txt ++ (List.replicate ind ' ' ++ (l ++ (b.txt ++ restLinesB ind ls tail)))))
+    (hidx : u.mark.index = pre.length) (hlc : advanceLC pre (1, 0) = (u.mark.line, u.mark.col))
+    (tok : Token) (u' : Sc) (h : scanBlockScalarBody true sm u = .ok (tok, u')) :
+    markTrue (pre ++ u.inp.iter) tok.span.start = true ∧ markTrue (pre ++ u.inp.iter) tok.span.stop = true ∧
+    markTrue (pre ++ u.inp.iter) u'.mark = true := by
+  rcases literal_block_token sm hd b0 ind hind tail ht1 ht2 ls l b hl hl1 hls u u.mark.line u.mark.col u.indent
+      (pre.length + u.inp.iter.length) hI ⟨hk, hi, rfl, rfl, rfl, by rw [hidx, hi]⟩ with
+    ⟨p, hp⟩ | ⟨tok', w, e, hres⟩
+  · rw [hp] at h; cases h
+  rw [e] at h; cases h
+  exact block_marks_true_core true _ pre hpre hd b0 ind hind tail ls l b hl hls u hi hlc tok u' hres
+
+open SaphyrModel.C14L SaphyrModel.C05 SaphyrModel.C05T SaphyrModel.C12C SaphyrModel.C05F in
+/-- the same for every folded block scalar whose lines do not start with a blank -/
+theorem folded_block_token_marks_true (pre : Str) (hpre : ∀ p, pre ≠ p ++ ['\r'])
+    (sm : Marker) (hd : Hdr) (b0 : Brk) (ind : Nat) (hind : ind ≠ 0) (tail : Str)
+    (ht1 : tail.headD '\x00' ≠ ' ') (ht2 : isBreak (tail.headD '\x00') = false) (ls : List (Str × Brk)) (l : Str) (b : Brk)
+    (hl : FoldLine l) (hls : ∀ p ∈ ls, FoldLine p.1) (u : Sc)
+    (hI : (u.indent + 1).toNat ≤ ind) (hk : u.inp.kind = .str)
+    (hi : u.inp.iter = hd.txt ++ (b0.txt ++ (List.replicate ind ' ' ++ (l ++ (b.txt ++ restLinesB ind ls tail)))))
+    (hidx : u.mark.index = pre.length) (hlc : advanceLC pre (1, 0) = (u.mark.line, u.mark.col))
+    (tok : Token) (u' : Sc) (h : scanBlockScalarBody false sm u = .ok (tok, u')) :
+    markTrue (pre ++ u.inp.iter) tok.span.start = true ∧ markTrue (pre ++ u.inp.iter) tok.span.stop = true ∧
+    markTrue (pre ++ u.inp.iter) u'.mark = true := by
+  rcases folded_block_token sm hd b0 ind hind tail ht1 ht2 ls l b hl hls u u.mark.line u.mark.col u.indent
+      (pre.length + u.inp.iter.length) hI ⟨hk, hi, rfl, rfl, rfl, by rw [hidx, hi]⟩ with
+    ⟨p, hp⟩ | ⟨tok', w, e, hres⟩
+  · rw [hp] at h; cases h
+  rw [e] at h; cases h
+  exact block_marks_true_core false _ pre hpre hd b0 ind hind tail ls l b hl.1 (fun p hp => (hls p hp).1) u hi hlc tok u' hres
 
 /-- non-vacuity: after `a: |` (index 4, line 1, column 4), the scalar `-`, CR LF, `  ab` LF, `   c` CR, then `x`:
     the token starts at index 9 (line 2, column 2), ends at index 17 (line 4, column 0); both marks are true -/
